@@ -389,6 +389,11 @@ func c14r2(p *Prog, r *Reporter) {
 			if name2 := knownCaller(p, r.rule.ID, soleCallerRoot(p, fn), construct); name2 != "" {
 				name = name2
 			}
+			// the same copy written out in a sibling method (a caller that inlined the listed function's body): a raw copy
+			// with the same source and destination classes in a method of the same type is the listed finding, not a new one
+			if n2, c2 := knownSameClass(p, r.rule.ID, name, construct, soleCallerRoot(p, fn)); n2 != "" {
+				name, construct = n2, c2
+			}
 			if sk == "entity" && dk == "entity" {
 				r.OK(name, construct, p.Pos(site.Pos()), "both operands are entity storage, whose element type has no pointers (checked from go/types)")
 				continue
@@ -601,4 +606,49 @@ func knownCaller(p *Prog, rule string, fn *ssa.Function, construct string) strin
 		}
 	}
 	return ""
+}
+
+// knownSameClass: rule|name|construct is not listed, but exactly one listed known finding of the rule has the same
+// construct up to its running number and sits in a method of the same receiver type: returns that finding's function
+// and construct.
+func knownSameClass(p *Prog, rule, name, construct string, fn *ssa.Function) (string, string) {
+	strip := func(c string) string {
+		if i := strings.Index(c, "#"); i >= 0 {
+			if j := strings.Index(c[i:], ":"); j >= 0 {
+				return c[:i] + c[i+j:]
+			}
+		}
+		return c
+	}
+	recv := typeName(recvType(fn))
+	if recv == "" {
+		return "", ""
+	}
+	var hitN, hitC string
+	k := 0
+	for _, kf := range loadKnown() {
+		if kf.Status != "known" {
+			continue
+		}
+		parts := strings.SplitN(kf.Key, "|", 3)
+		if len(parts) != 3 || parts[0] != rule {
+			continue
+		}
+		if parts[1] == name && parts[2] == construct {
+			return "", "" // listed as it is
+		}
+		if strip(parts[2]) != strip(construct) {
+			continue
+		}
+		g := p.Fn(parts[1])
+		if g == nil || typeName(recvType(g)) != recv {
+			continue
+		}
+		k++
+		hitN, hitC = parts[1], parts[2]
+	}
+	if k == 1 {
+		return hitN, hitC
+	}
+	return "", ""
 }
